@@ -21,14 +21,15 @@ class CUndefinedBehaviour(Exception):
 
 
 class _Lib(object):
-    def __init__(self):
+    def __init__(self, variant='release'):
+        self.variant = variant
         self.path = None
         self.lib = None
 
     def load(self):
         if self.lib is not None:
             return self.lib
-        path = _build.build()
+        path = _build.build(variant=self.variant)
         lib = ctypes.CDLL(path)
         self.path = path
         self.lib = lib
@@ -42,12 +43,15 @@ class _Lib(object):
         lib.ds_pop_log_size.restype = ul
         lib.ds_pop_log_copy.argtypes = [vp]
         lib.ds_sizeof_pop_record.restype = ul
-        lib.ds_sizeof_cell_item.restype = ul
-        lib.ds_offsetof_cell_item.restype = ul
-        lib.ds_offsetof_cell_item.argtypes = [ctypes.c_int]
-        lib.ds_sizeof_config.restype = ul
-        lib.ds_offsetof_config.restype = ul
-        lib.ds_offsetof_config.argtypes = [ctypes.c_int]
+        lib.ds_item_num.restype = ctypes.c_double
+        lib.ds_item_num.argtypes = [vp, ctypes.c_int]
+        lib.ds_item_child.restype = vp
+        lib.ds_item_child.argtypes = [vp, ctypes.c_int]
+        lib.ds_config_new.restype = vp
+        lib.ds_config_free.argtypes = [vp]
+        lib.ds_config_set.argtypes = [vp, ctypes.c_int, ctypes.c_double]
+        lib.ds_config_get.restype = ctypes.c_double
+        lib.ds_config_get.argtypes = [vp, ctypes.c_int]
         lib.ds_item_score.restype = ctypes.c_float
         lib.ds_item_score.argtypes = [vp]
         lib.ds_uint_max.restype = u
@@ -80,41 +84,25 @@ class _Lib(object):
         return lib
 
 
-_LIB = _Lib()
+_LIBS = {v: _Lib(v) for v in _build.VARIANTS}
+_current = ['release']
+
+
+def select_variant(variant):
+    """choose which build of parsing.h the C objects created from now on belong to
+    (called once at the start of a run, before any C object exists)"""
+    if variant not in _LIBS:
+        raise ValueError(variant)
+    _current[0] = variant
 
 
 def lib():
-    return _LIB.load()
+    return _LIBS[_current[0]].load()
 
 
-class CellItemStruct(ctypes.Structure):
-    pass
-
-
-CellItemStruct._fields_ = [
-    ('fin', ctypes.c_bool),
-    ('cat', ctypes.c_uint),
-    ('left', ctypes.POINTER(CellItemStruct)),
-    ('right', ctypes.POINTER(CellItemStruct)),
-    ('in_score', ctypes.c_float),
-    ('out_score', ctypes.c_float),
-    ('start_of_span', ctypes.c_uint),
-    ('span_length', ctypes.c_uint),
-    ('head_id', ctypes.c_uint),
-    ('rule_id', ctypes.c_uint),
-]
-
-
-class ConfigStruct(ctypes.Structure):
-    _fields_ = [
-        ('num_tags', ctypes.c_uint),
-        ('unary_penalty', ctypes.c_float),
-        ('beta', ctypes.c_float),
-        ('use_beta', ctypes.c_bool),
-        ('pruning_size', ctypes.c_uint),
-        ('nbest', ctypes.c_uint),
-        ('max_step', ctypes.c_uint),
-    ]
+def load_all():
+    for l in _LIBS.values():
+        l.load()
 
 
 POP_DTYPE = numpy.dtype([
@@ -123,18 +111,8 @@ POP_DTYPE = numpy.dtype([
 
 
 def _check_layout(lib):
-    names = [f[0] for f in CellItemStruct._fields_]
-    if lib.ds_sizeof_cell_item() != ctypes.sizeof(CellItemStruct):
-        raise RuntimeError('HARNESS-ERROR: cell_item layout mismatch (size)')
-    for i, n in enumerate(names):
-        if lib.ds_offsetof_cell_item(i) != getattr(CellItemStruct, n).offset:
-            raise RuntimeError(f'HARNESS-ERROR: cell_item layout mismatch ({n})')
-    names = [f[0] for f in ConfigStruct._fields_]
-    if lib.ds_sizeof_config() != ctypes.sizeof(ConfigStruct):
-        raise RuntimeError('HARNESS-ERROR: config layout mismatch (size)')
-    for i, n in enumerate(names):
-        if lib.ds_offsetof_config(i) != getattr(ConfigStruct, n).offset:
-            raise RuntimeError(f'HARNESS-ERROR: config layout mismatch ({n})')
+    # cell_item and config are reached through accessor functions of the shim, so
+    # their layout is free to change; only the shim's own record is mirrored here
     if lib.ds_sizeof_pop_record() != POP_DTYPE.itemsize:
         raise RuntimeError('HARNESS-ERROR: pop record layout mismatch')
     if lib.ds_uint_max() != UINT_MAX:
@@ -177,21 +155,40 @@ class config(object):
     _float = ('unary_penalty', 'beta')
     _bint = ('use_beta',)
 
+    _index = {'num_tags': 0, 'unary_penalty': 1, 'beta': 2, 'use_beta': 3,
+              'pruning_size': 4, 'nbest': 5, 'max_step': 6}
+
     def __init__(self):
-        object.__setattr__(self, '_c', ConfigStruct())
+        object.__setattr__(self, '_ptr', lib().ds_config_new())
 
     def __setattr__(self, name, value):
         if name in self._unsigned:
-            setattr(self._c, name, _to_unsigned(value, name))
+            v = _to_unsigned(value, name)
         elif name in self._float:
-            setattr(self._c, name, _to_float(value))
+            v = _to_float(value)
         elif name in self._bint:
-            setattr(self._c, name, _to_bint(value))
+            v = 1 if _to_bint(value) else 0
         else:
             raise AttributeError(name)
+        lib().ds_config_set(self._ptr, self._index[name], float(v))
 
     def __getattr__(self, name):
-        return getattr(self._c, name)
+        if name not in self._index:
+            raise AttributeError(name)
+        v = lib().ds_config_get(self._ptr, self._index[name])
+        if name in self._unsigned:
+            return int(v)
+        if name in self._bint:
+            return bool(v)
+        return v
+
+    def __del__(self):
+        try:
+            if self._ptr:
+                lib().ds_config_free(self._ptr)
+                object.__setattr__(self, '_ptr', None)
+        except Exception:
+            pass
 
 
 # ---------------------------------------------------------------- pair
@@ -295,7 +292,7 @@ class _CacheVector(object):
 def c_integer(value):
     """`<size_t>ptr` / `<long>x`: the address of a C object, or the integer itself"""
     if isinstance(value, CellItemPtr):
-        return ctypes.addressof(value._p.contents)
+        return int(value._p)
     if value is None:
         return 0
     return int(value)
@@ -400,60 +397,63 @@ class ResultsVectorPtr(object):
 # ---------------------------------------------------------------- cell_item
 
 class CellItemPtr(object):
-    """`cell_item *item`"""
+    """`cell_item *item`: fields are read through the shim's accessors"""
     __slots__ = ('_p',)
 
     def __init__(self, p):
-        self._p = p
+        self._p = p          # address (int)
 
     @staticmethod
     def wrap(p):
         if not p:
             return None
-        return CellItemPtr(p)
+        return CellItemPtr(int(p))
+
+    def _num(self, field):
+        return lib().ds_item_num(self._p, field)
 
     @property
     def fin(self):
-        return bool(self._p.contents.fin)
+        return bool(self._num(0))
 
     @property
     def cat(self):
-        return self._p.contents.cat
+        return int(self._num(1))
 
     @property
     def left(self):
-        return CellItemPtr.wrap(self._p.contents.left)
+        return CellItemPtr.wrap(lib().ds_item_child(self._p, 0))
 
     @property
     def right(self):
-        return CellItemPtr.wrap(self._p.contents.right)
+        return CellItemPtr.wrap(lib().ds_item_child(self._p, 1))
 
     @property
     def in_score(self):
-        return self._p.contents.in_score
+        return self._num(4)
 
     @property
     def out_score(self):
-        return self._p.contents.out_score
+        return self._num(5)
 
     @property
     def start_of_span(self):
-        return self._p.contents.start_of_span
+        return int(self._num(6))
 
     @property
     def span_length(self):
-        return self._p.contents.span_length
+        return int(self._num(7))
 
     @property
     def head_id(self):
-        return self._p.contents.head_id
+        return int(self._num(8))
 
     @property
     def rule_id(self):
-        return self._p.contents.rule_id
+        return int(self._num(9))
 
     def score(self):
-        return float(lib().ds_item_score(ctypes.cast(self._p, ctypes.c_void_p)))
+        return float(lib().ds_item_score(self._p))
 
 
 # ---------------------------------------------------------------- helpers used by the rewritten text
@@ -533,7 +533,7 @@ def take_ub():
 _SCAFFOLD_T = ctypes.CFUNCTYPE(
     ctypes.c_int, ctypes.c_void_p, ctypes.c_uint, ctypes.c_uint, ctypes.c_void_p)
 _FINALIZER_T = ctypes.CFUNCTYPE(
-    ctypes.c_uint, ctypes.POINTER(CellItemStruct), ctypes.POINTER(ctypes.c_uint),
+    ctypes.c_uint, ctypes.c_void_p, ctypes.POINTER(ctypes.c_uint),
     ctypes.c_void_p, ctypes.c_void_p)
 
 stats = {'parse_calls': 0, 'pops': 0}
@@ -581,12 +581,19 @@ def parse_sentence(c_tag_scores, c_dep_scores, length, c_possible_root_cat,
     errbuf = ctypes.create_string_buffer(512)
     L.ds_pop_log_clear()
     cache_before = len(c_cache)
-    status = L.ds_parse_sentence(
-        c_tag_scores, c_dep_scores, _to_unsigned(length, 'length'),
-        c_possible_root_cat._ptr, 1, 2,
-        ctypes.cast(c_finalizer, ctypes.c_void_p), ctypes.cast(c_scaffold, ctypes.c_void_p),
-        3, c_cache._ptr, ctypes.cast(ctypes.pointer(c_config._c), ctypes.c_void_p),
-        errbuf, 512)
+    # recursion of `cdef` functions (retrieve_tree walks the derivation) runs on the C stack in the real
+    # extension and does not count against the interpreter's recursion limit; their transliterations do
+    limit = sys.getrecursionlimit()
+    sys.setrecursionlimit(limit + 8 * int(length) + 64)
+    try:
+        status = L.ds_parse_sentence(
+            c_tag_scores, c_dep_scores, _to_unsigned(length, 'length'),
+            c_possible_root_cat._ptr, 1, 2,
+            ctypes.cast(c_finalizer, ctypes.c_void_p), ctypes.cast(c_scaffold, ctypes.c_void_p),
+            3, c_cache._ptr, c_config._ptr,
+            errbuf, 512)
+    finally:
+        sys.setrecursionlimit(limit)
     stats['parse_calls'] += 1
     last_pops = L.ds_pop_count()
     stats['pops'] += last_pops
